@@ -1516,6 +1516,14 @@ namespace vf
          catch( const fuel_exhausted& ) {
             throw;
          }
+         catch( const std::out_of_range& ) {
+            // not an exception of the grammar: pegtl::coverage<> threw map::at for a rule that is missing from its table (rules
+            // that call sub-rules outside their subs_t, O12).  A try_catch_std/any rule of the grammar may swallow it and the
+            // parse would go on in a state the formalism knows nothing about: nothing of this run is judged.
+            m.aborted = true;
+            obs::leave( depth, 2, rule_name< Rule >(), WithUnwind, eager, m.take( in ), pos3{ 0, 0, 0 } );
+            throw;
+         }
          catch( ... ) {
             obs::leave( depth, 2, rule_name< Rule >(), WithUnwind, eager, m.take( in ), pos3{ 0, 0, 0 } );
             throw;
